@@ -66,7 +66,10 @@ def rename(blocks, scope, stype):
             p.tokens[0].parse(scope)
             if p.tokens[1]:
                 scope.push()
-                scope.current = p.tokens[0]
+                if not getattr(p.tokens[0], 'subparse', False):
+                    # an @media block is no selector scope: the rules in it
+                    # stay rooted under the enclosing (calling) rule
+                    scope.current = p.tokens[0]
                 rename(p.tokens[1], scope, stype)
                 scope.pop()
 
